@@ -440,3 +440,115 @@ Proof.
   intros e c R Ev Ha Hh.
   rewrite (reopen_ok progs_now e c eq_refl eq_refl R Ev). rewrite Ha, Hh. reflexivity.
 Qed.
+
+(* ---------- the pty child of the system transport ---------- *)
+Lemma all_pty_complete s : In s all_pty.
+Proof. destruct s as [[| |] [|] [|] [|]]; vm_compute; tauto. Qed.
+
+Lemma all_penv_complete E : In E all_penv.
+Proof. destruct E as [[|] [|]]; vm_compute; tauto. Qed.
+
+Lemma pty_close_case p : pty_close_ok p = true -> forall E s, close_case_ok p E s = true.
+Proof.
+  intros H E s. unfold pty_close_ok in H. rewrite forallb_forall in H.
+  specialize (H E (all_penv_complete E)). rewrite forallb_forall in H. exact (H s (all_pty_complete s)).
+Qed.
+
+(* close() of an un-closed PtyProcess, in every state — EOF read or not, child running, exited or already
+   reaped, master fd open or not — and whatever the signals achieve: when it returns the child has been
+   waited for, the fd is closed, the object is closed; it raises only if the child could not be killed;
+   it always returns or raises unless an EOF was read AND the child still runs AND survives the SIGHUP of the
+   closed master *)
+Theorem pty_close_reaps : forall p, pty_close_ok p = true -> forall E s,
+  y_closed s = false -> (y_eof s = true -> y_child s = CRunning -> hup_exits E = true) ->
+  match prun E p s with
+  | (s', PDone) => y_child s' = CReaped /\ y_fd s' = false /\ y_closed s' = true
+  | (_, PRaised) => kill_works E = false
+  | (_, PBlocks) => False
+  end.
+Proof.
+  intros p H E s Hc He. pose proof (pty_close_case p H E s) as K. unfold close_case_ok in K. rewrite Hc in K.
+  assert (R : in_region E s = true).
+  { unfold in_region. destruct (y_eof s); [|reflexivity]. destruct (y_child s); try reflexivity.
+    rewrite (He eq_refl eq_refl). reflexivity. }
+  rewrite R in K. destruct (prun E p s) as [s' [| |]].
+  - unfold pty_released in K. apply andb_prop in K as [K K3]. apply andb_prop in K as [K1 K2].
+    repeat split; [destruct (y_child s'); try discriminate; reflexivity | destruct (y_fd s'); try discriminate; reflexivity | exact K3].
+  - destruct (kill_works E); [discriminate | reflexivity].
+  - discriminate.
+Qed.
+
+(* close() can be called repeatedly: on a closed object it changes nothing and returns *)
+Theorem pty_close_idempotent : forall p, pty_close_ok p = true -> forall E s,
+  y_closed s = true -> exists s', prun E p s = (s', PDone) /\ y_child s' = y_child s /\ y_fd s' = y_fd s /\ y_closed s' = true.
+Proof.
+  intros p H E s Hc. pose proof (pty_close_case p H E s) as K. unfold close_case_ok in K. rewrite Hc in K.
+  destruct (prun E p s) as [s' [| |]]; try discriminate. exists s'. split; [reflexivity|].
+  apply andb_prop in K as [K K3]. apply andb_prop in K as [K1 K2]. repeat split.
+  - destruct (y_child s'), (y_child s); try discriminate; reflexivity.
+  - apply Bool.eqb_prop; exact K2.
+  - exact K3.
+Qed.
+
+Example pty_close_now_ok : pty_close_ok pty_close_now = true.
+Proof. vm_compute. reflexivity. Qed.
+
+(* the premises are satisfiable by states that matter: EOF read, child defunct, fd open; and EOF read, child
+   still running but exiting on SIGHUP *)
+Example pty_close_reaps_after_eof :
+  prun (mkPE false false) pty_close_now (mkPty CExited true false true) = (mkPty CReaped false true true, PDone) /\
+  prun (mkPE true false) pty_close_now (mkPty CRunning true false true) = (mkPty CReaped false true true, PDone).
+Proof. split; vm_compute; reflexivity. Qed.
+
+(* the full statement is false of the code as it is: a child that closed its tty (EOF was read) but keeps
+   running makes close() wait for it; and a child that survives SIGKILL makes it raise *)
+Theorem pty_close_full_refuted : ~ pty_close_full pty_close_now.
+Proof.
+  intros H. destruct (H (mkPE false true) (mkPty CRunning true false true) eq_refl) as [s' [K _]].
+  vm_compute in K. discriminate.
+Qed.
+
+(* a close() that skips the wait once EOF has been read leaves the defunct child *)
+Example pty_close_skip_after_eof_rejected :
+  pty_close_ok (PIf PNotClosed (PSeq PDelFileobj (PSeq (PIf PNotEofSeen (PIf PIsAlive PTerminateOrRaise)) PMarkClosed))) = false.
+Proof. vm_compute. reflexivity. Qed.
+
+(* spawn(): on every exit after the fork — the return and every raise — the child and the master fd are
+   owned by a PtyProcess object (which transport.close(), or __del__ when the exception is dropped, closes) *)
+Lemma spawn_owns_from : forall prog owned, spawn_ok_from owned prog = true -> forall fails, fst (srun prog fails owned) = true.
+Proof.
+  induction prog as [|a r IH]; intros owned H fails; cbn in *.
+  - exact H.
+  - destruct a; cbn in *.
+    + apply IH; exact H.
+    + apply IH; exact H.
+    + apply andb_prop in H as [H1 H2]. destruct (hd false fails); cbn; [exact H1 | apply IH; exact H2].
+    + apply andb_prop in H as [H1 H2]. destruct (hd false fails); cbn; [exact H1 | apply IH; exact H2].
+    + exact H.
+Qed.
+
+Theorem spawn_owns : forall prog, spawn_ok prog = true -> forall fails, fst (srun prog fails false) = true.
+Proof. intros prog H fails. exact (spawn_owns_from prog false H fails). Qed.
+
+(* a failed (or successful) spawn followed by the close() of the object that owns the child: reaped, fd closed *)
+Theorem pty_spawn_then_close : forall prog p, spawn_ok prog = true -> pty_close_ok p = true ->
+  forall fails E c,
+  fst (srun prog fails false) = true /\
+  match prun E p (mkPty c true false false) with
+  | (s', PDone) => y_child s' = CReaped /\ y_fd s' = false /\ y_closed s' = true
+  | (_, PRaised) => kill_works E = false
+  | (_, PBlocks) => False
+  end.
+Proof.
+  intros prog p Hs Hp fails E c. split; [exact (spawn_owns prog Hs fails)|].
+  apply (pty_close_reaps p Hp E (mkPty c true false false) eq_refl). cbn. discriminate.
+Qed.
+
+Example pty_spawn_now_ok : spawn_ok pty_spawn_now = true.
+Proof. vm_compute. reflexivity. Qed.
+
+(* wrapping only after the exec-error check loses the child and the fd when the exec fails *)
+Example pty_spawn_wrap_late_rejected :
+  spawn_ok [SPipe; SPipe; SPipe; SExecCheck; SWrap; SMayRaise; SMayRaise; SReturn] = false /\
+  srun [SPipe; SPipe; SPipe; SExecCheck; SWrap; SMayRaise; SMayRaise; SReturn] [false; false; false; true] false = (false, true).
+Proof. split; vm_compute; reflexivity. Qed.
